@@ -1,4 +1,17 @@
 // Unit c29_calendar -- property C29 "Calendar time conversions are correct and invertible"
+// Real code (all bodies extracted verbatim on every run):
+//   radix-common/src/time/utc_date_time.rs :: UtcDateTime::{new, from_instant, to_instant, is_leap_year,
+//       num_leap_years_up_to_exclusive, year/month/day_of_month/hour/minute/second,
+//       add_days/add_hours/add_minutes/add_seconds}, `From<UtcDateTime> for Instant :: from`
+//   radix-common/src/time/instant.rs :: Instant::{new, compare, add_days, add_hours, add_minutes, add_seconds}
+//   constants: SECONDS_IN_*, DAYS_PER_*, SHIFT_FROM_UNIX_TIME_TO_MARCH_Y2K, MIN/MAX_SUPPORTED_TIMESTAMP,
+//       LEAP_YEAR_DAYS_IN_MONTHS (re-read from /repo; their values are checked against the oracle)
+// Not in this unit: FromStr / Display (string processing; bounded Kani harness), `TryFrom<Instant> for
+//   UtcDateTime :: try_from` (one-line wrapper of from_instant; `Self::Error` needs the trait impl),
+//   derived PartialOrd/Ord/Decode on UtcDateTime.
+// Trusted std contracts: vstd's own specs for u32::is_multiple_of, RangeInclusive::contains,
+//   {u32,u8}::try_from, Result::{unwrap, ok}, Option::{and_then, map}, i64::{checked_mul, checked_add};
+//   plus ONE assumed spec of this framework: shims/slice_rotate.rs (`<[T]>::rotate_left`).
 use vstd::prelude::*;
 verus! {
 /*@include shims/rt.rs @*/
